@@ -281,6 +281,124 @@ func init() {
 			c.Fact("sessions.stateless_header_reads", map[string]int{"total": reads, "under_legacy_flag": guarded})
 			c.Fact("sessions.stateless_calls", callSeq(c, fd.Body, []string{"lookupSession", "GetSessionID", "connectStreamable", "Close", "ServeHTTP", "serveStatelessLegacyDELETE", "serveEphemeral"}))
 		}
+		// the compatibility path of a stateless endpoint (MCPGODEBUG allowsessionsinstateless=1): DELETE is a
+		// no-op that only demands an id; a POST's temporary session gets the request's id, or a minted one
+		if fd := c.Func(dir, "StreamableHTTPHandler", "serveStatelessLegacyDELETE"); fd != nil {
+			if is := ifWithCond(c, fd.Body, `sessionID == ""`); is != nil {
+				e := httpErrorsIn(c, is.Body)
+				get("statelessLegacyDeleteMissingID", first(e), len(e) == 1)
+			} else {
+				get("statelessLegacyDeleteMissingID", 0, false)
+			}
+			e := httpErrorsIn(c, fd.Body)
+			get("statelessLegacyDeleteOK", last(e), len(e) == 2)
+			c.Fact("sessions.legacy_delete_calls", callSeq(c, fd.Body, []string{"lookupSession", "Close", "Get", "Lock", "delete"}))
+		} else {
+			get("statelessLegacyDeleteMissingID", 0, false)
+			get("statelessLegacyDeleteOK", 0, false)
+		}
+		if fd := c.Func(dir, "StreamableHTTPHandler", "serveStateless"); fd != nil {
+			src := []string{"<no legacy id branch>"}
+			if is := ifWithCond(c, fd.Body, "legacySessions && !info.usesNewProtocol"); is != nil {
+				src = callSeq(c, is.Body, []string{"Get", "GetSessionID"})
+				if inner := ifWithCond(c, is.Body, `sessionID == ""`); inner != nil {
+					src = append(src, "minted-only-if-absent")
+				}
+			}
+			c.Fact("sessions.legacy_id_source", src)
+			flag := ""
+			if len(fd.Body.List) > 0 {
+				flag = c.Src(fd.Body.List[0])
+			}
+			c.Fact("sessions.legacy_flag", flag)
+		}
+		// requests refused before the session layer: Content-Type, Accept, getServer == nil (POST), Accept (GET); each
+		// check must come before the first read of the session id header and before GetSessionID
+		gate := map[string]any{}
+		for _, g := range []struct{ fn, pre string }{{"serveStatefulPOST", "stateful"}, {"serveStateless", "stateless"}, {"serveStatefulGET", "statefulGET"}} {
+			fd := c.Func(dir, "StreamableHTTPHandler", g.fn)
+			if fd == nil {
+				continue
+			}
+			conds := []struct{ name, cond string }{
+				{"BadContentType", `disablecontenttypecheck != "1" && baseMediaType(req.Header.Get("Content-Type")) != "application/json"`},
+				{"BadAccept", "!jsonOK || !streamOK"},
+				{"NoServer", "server == nil"},
+			}
+			if g.fn == "serveStatefulGET" {
+				conds = []struct{ name, cond string }{{"BadAccept", "!streamOK"}}
+			}
+			var order []string
+			for _, s := range fd.Body.List {
+				if is, ok := s.(*ast.IfStmt); ok {
+					for _, cd := range conds {
+						if c.Src(is.Cond) == cd.cond {
+							e := httpErrorsIn(c, is.Body)
+							_, ret := is.Body.List[len(is.Body.List)-1].(*ast.ReturnStmt)
+							get(g.pre+cd.name, first(e), len(e) == 1 && ret)
+							order = append(order, cd.name)
+						}
+					}
+				}
+				src := c.Src(s)
+				if strings.Contains(src, "req.Header.Get(sessionIDHeader)") && !strings.Contains(src, "legacySessions &&") || strings.HasPrefix(src, "sessionID := req.Header.Get(sessionIDHeader)") {
+					order = append(order, "<reads session id>")
+				}
+				if strings.Contains(src, "GetSessionID()") {
+					order = append(order, "<GetSessionID>")
+				}
+				if strings.Contains(src, "ephemeralConnectOpts(") || strings.Contains(src, "connectStreamable(") {
+					order = append(order, "<connect>")
+				}
+			}
+			gate[g.fn] = order
+			for _, cd := range conds {
+				if _, ok := st[g.pre+cd.name]; !ok {
+					get(g.pre+cd.name, 0, false)
+				}
+			}
+		}
+		// ServeHTTP's own refusals (DNS rebinding protection, cross-origin protection) come before the dispatch
+		if fd := c.Func(dir, "StreamableHTTPHandler", "ServeHTTP"); fd != nil {
+			var order []string
+			for _, s := range fd.Body.List {
+				if is, ok := s.(*ast.IfStmt); ok {
+					switch c.Src(is.Cond) {
+					case `!h.opts.DisableLocalhostProtection && disablelocalhostprotection != "1"`:
+						e := httpErrorsIn(c, is.Body)
+						get("serveBadHost", first(e), len(e) == 1)
+						order = append(order, "BadHost")
+					case "h.opts.CrossOriginProtection != nil":
+						e := httpErrorsIn(c, is.Body)
+						get("serveCrossOrigin", first(e), len(e) == 1)
+						order = append(order, "CrossOrigin")
+					case "h.opts.Stateless":
+						order = append(order, "<dispatch>")
+					}
+				}
+			}
+			gate["ServeHTTP"] = order
+		}
+		for _, nm := range []string{"serveBadHost", "serveCrossOrigin"} {
+			if _, ok := st[nm]; !ok {
+				get(nm, 0, false)
+			}
+		}
+		c.Fact("sessions.gate_order", gate)
+		// the creation path of a stateful endpoint whose GetSessionID returns "": a temporary session, never published
+		if fd := c.Func(dir, "StreamableHTTPHandler", "serveStatefulPOST"); fd != nil {
+			calls := []string{"<no empty-id branch>"}
+			returns := false
+			for _, s := range fd.Body.List {
+				if is, ok := s.(*ast.IfStmt); ok && c.Src(is.Cond) == `sessionID == ""` {
+					calls = callSeq(c, is.Body, []string{"ephemeralConnectOpts", "connectStreamable", "serveEphemeral", "startPOST", "AfterFunc"})
+					if n := len(is.Body.List); n > 0 {
+						_, returns = is.Body.List[n-1].(*ast.ReturnStmt)
+					}
+				}
+			}
+			c.Fact("sessions.empty_id_is_ephemeral", map[string]any{"calls": calls, "returns_before_publication": returns})
+		}
 		if fd := c.Func(dir, "StreamableHTTPHandler", "serveStateful"); fd != nil {
 			var def *ast.CaseClause
 			ast.Inspect(fd.Body, func(x ast.Node) bool {
